@@ -1,6 +1,12 @@
 import json,sys
 pid, wt = sys.argv[1], sys.argv[2]
 extra = sys.argv[3] if len(sys.argv)>3 else ''
+import glob
+prev=[]
+for f in sorted(glob.glob(f'/verif/seeded/{pid}-*/meta.json')):
+    prev.append('- '+json.load(open(f))['needs_to_manifest'])
+if prev:
+    extra += ' Earlier reviewers already submitted the following changes for this property (described by what they need in order to manifest); do NOT repeat them or close variants of them - find different mechanisms, ideally in other functions/files and breaking other clauses or other corners of the quantifier:\n' + '\n'.join(prev) + '\n'
 p=[json.loads(l) for l in open('/verif/properties.jsonl') if json.loads(l)['id']==pid][0]
 files=', '.join(p['anchors']['files'])
 print(f'''You are testing how well a verification effort detects regressions in google/martian (a Go HTTP/S MITM proxy library). You have your own scratch git worktree of the repository at {wt} (work only there; never touch /repo or /verif, and do not read anything under /verif). Shell setup for every command: `export GOFLAGS=-mod=mod GOPROXY=off GOSUMDB=off GOTOOLCHAIN=local` (no network; Go 1.23). The existing test suite is run with `cd {wt} && go test -mod=mod -vet=off -count=1 ./...` (about 40 s; the machine is busy, so a timing-sensitive trafficshape or proxy test may occasionally flake — rerun that package alone before concluding anything).
